@@ -114,19 +114,32 @@ def scenario(ctx, seed, goal, phase, party, lose, record_controls=None):
         pump()
         # time passes: every timer fires in order; whatever is sent is delivered unless it is in the loss set
         # a circuit that is not ready when it is abandoned may use its whole retry budget before the limits apply
-        deadline = t_down + BOUND_MS + (5000 if built else BUILD_MS) + 1000
-        for _ in range(4000):
+        # time passes until everything is quiet - at the very latest 2 x (inactivity + sweep + delay) after the teardown
+        # (+ the retry budget of a circuit that was not ready yet): the entries in front of a lost destroy keep being
+        # refreshed by the originator's pings until its own circuit has timed out. The exact, activity-based bound is the
+        # invariant Reclaimed, which TLC evaluates in every state of the run.
+        cap = t_down + 2 * BOUND_MS + (0 if built else BUILD_MS) + 15000
+
+        def quiet():
+            others = [n for n in w.names if not (party == "o-vanish" and n == "o")]
+            return all(w._idle(n) for n in others) and all(w.open_transports(n) == 0 for n in others)
+        for _ in range(6000):
             pump()
+            if quiet() and not w.net.inflight:
+                break
+            if party == "nobody" and w.now_ms() > t_down + 45000 and \
+                    any(c.state == "READY" for c in w.ov["o"].circuits.values()):
+                break           # nothing essential was lost: the circuit lives on
             ts = w.loop.timers()
-            if not ts or int(round((ts[0]._when - w.t0) * 1000)) > deadline:
+            if not ts or int(round((ts[0]._when - w.t0) * 1000)) > cap:
                 break
             w.fire_next_timer()
-        if party in ("o-vanish",):
-            # the vanished originator's own tables are its own business: only the others must be quiet
-            pass
-        if party == "nobody" and not lose:
-            pass            # nothing lost, nobody tore down: the circuit is alive and well
+        alive = any(c.state == "READY" for c in w.ov["o"].circuits.values())
+        if party == "nobody" and alive:
+            pass            # nobody tore down and what was lost did not matter: the circuit is alive and kept alive
         elif party == "o-vanish":
+            if w.now_ms() > w.last_tick_ms:
+                w._emit_tick()
             w.log("ExpectQuietOthers", n="o")
         else:
             w.expect_quiet()
@@ -192,7 +205,8 @@ def run(tier, seed, replay=None):
                                    "events": sum(len(t["events"]) for t in runs)})
     # validate in batches (one JVM per ~150 runs)
     for i in range(0, len(runs), 150):
-        K.validate_family(ctx, PID, runs[i:i + 150], "line4", hdr, "fault-enum[%d]" % (i // 150), NONTRIVIAL)
+        K.validate_family(ctx, PID, runs[i:i + 150], "line4", hdr, "fault-enum[%d]" % (i // 150), NONTRIVIAL,
+                          track_wire=False)
     if runs and not ctx.violations:
         K.trace_control(ctx, "run whose relay entry is still there at the deadline is rejected", [runs[0]], "line4", hdr,
                         _leak_relay)
